@@ -55,6 +55,22 @@ func cacheOf(mode string) *blockchain.CacheConfig {
 	return &blockchain.CacheConfig{TrieCleanLimit: 16, TrieDirtyLimit: 16, TrieDirtyDisabled: false, SnapshotLimit: 0}
 }
 
+// suffixTimeouts bounds the synchronous suffix: with four or five validators a round costs about a dozen timeouts, so
+// this is more than a hundred rounds for three heights (the simulator's cost per round grows with the round number).
+const suffixTimeouts = 1500
+
+// stopFileWAL stops the product's file WAL of a node whose ConsensusState.Start did not get as far as stopping it
+// itself (Start failed or panicked after opening the log): its group keeps a ticker goroutine that panics once the
+// directory is gone.
+func stopFileWAL(n *netsim.Node) {
+	defer func() { recover() }()
+	if w, ok := n.CS.VerifWAL().(*consensus.BaseWAL); ok && w.IsRunning() {
+		if w.Stop() == nil {
+			w.Wait()
+		}
+	}
+}
+
 type finding struct{ key, msg string }
 
 // imageHook, if set, sees the surviving images of the first crash (copies) before the restart.
@@ -96,11 +112,11 @@ func families(o outcome) map[string]bool {
 
 // runCrash2 additionally kills the RESTARTED process immediately before ITS durable operation number cut2 (counted
 // from the start of the restart: node construction, ConsensusState.Start with WAL catch-up, then the suffix) and
-// restarts it once more on what survives ("crash during recovery"). cut2 < 0: no second crash. inherited = the clause
-// families the FIRST crash alone already breaks at this crash point (from a single-crash run of the same case): the
-// damage of the first crash is permanent (e.g. a log that is one height ahead of the state), so the same family
-// failing again after the second restart is attributed to the first window - which the single-crash run reports - and
-// only families that fail BECAUSE of the second crash are reported here, keyed by the second crash's phase.
+// restarts it once more on what survives ("crash during recovery"). cut2 < 0: no second crash. Callers use a second
+// crash only where the first crash alone (single-crash run of the same case) recovers cleanly: the damage of a broken
+// first recovery is permanent (a log one height ahead of the state, a genesis state under a longer block store) and
+// shows up later under any clause, so it cannot be told apart from what the second crash adds. (inherited, if given,
+// names clause families to leave out after the second restart.)
 func runCrash2(sc scenario, cut int, tail string, cut2 int, inherited map[string]bool) (out outcome) {
 	counter := &netsim.OpCounter{Cut: -1}
 	mem := memorydb.New()
@@ -267,6 +283,7 @@ func runCrash2(sc scenario, cut int, tail string, cut2 int, inherited map[string
 	var closers []*netsim.Node
 	defer func() {
 		for _, c := range closers {
+			stopFileWAL(c) // before its directory is removed (deferred above, so it runs after this)
 			c.Close()
 		}
 	}()
@@ -332,7 +349,7 @@ func runCrash2(sc scenario, cut int, tail string, cut2 int, inherited map[string
 		msg, frame = ev.Try(func() {
 			nn, err = netsim.NewNode(sc.Subject, s.G, s.Keys[sc.Subject], netsim.NodeOpts{DB: &netsim.RecDB{Database: liveDB, C: c}, Cache: cacheOf(sc.Cache), PV: pv, RootDir: dir})
 		})
-		if nn != nil && msg == "" && err == nil {
+		if nn != nil {
 			closers = append(closers, nn)
 		}
 		if dead() {
@@ -404,7 +421,7 @@ func runCrash2(sc scenario, cut int, tail string, cut2 int, inherited map[string
 		if goal == 0 {
 			goal = s.MaxHeight(s.Correct) + 3
 		}
-		msg, frame = ev.Try(func() { ok, _, why = s.SyncRun(s.Correct, goal, 6000) })
+		msg, frame = ev.Try(func() { ok, _, why = s.SyncRun(s.Correct, goal, suffixTimeouts) })
 		if dead() {
 			imgDB, imgWAL = nextDB, nextWAL
 			goal = 0
@@ -610,7 +627,11 @@ func TestCrashDrawn(t *testing.T) {
 		o := runCrash(sc, cut, tail)
 		report(t, sc, cut, tail, o)
 		if cut2 >= 0 && o.crashed {
-			if o2 := runCrash2(sc, cut, tail, cut2, families(o)); o2.window2 != "" {
+			if len(o.findings) > 0 {
+				// the first recovery is already broken at this crash point (reported above): what a second crash adds to a
+				// damaged node cannot be told apart from the damage, so second crashes are judged on clean recoveries only
+				ev.Class("second-crash-skipped:first-recovery-already-broken")
+			} else if o2 := runCrash2(sc, cut, tail, cut2, nil); o2.window2 != "" {
 				report2(t, sc, cut, tail, cut2, o2)
 			}
 		}
@@ -698,9 +719,12 @@ func TestSecondCrashEnum(t *testing.T) {
 				if !o.crashed {
 					continue
 				}
-				fam := families(o)
+				if len(o.findings) > 0 {
+					ev.Class("second-crash-skipped:first-recovery-already-broken") // see TestCrashDrawn
+					continue
+				}
 				for cut2 := 0; cut2 < depth; cut2++ {
-					o2 := runCrash2(sc, cut, tail, cut2, fam)
+					o2 := runCrash2(sc, cut, tail, cut2, nil)
 					if o2.window2 == "" {
 						break // the restarted process performs fewer operations than that
 					}
@@ -738,11 +762,13 @@ func TestRestartRealTicker(t *testing.T) {
 					return // judged by the main restart path (R1)
 				}
 				defer nn.Close()
+				defer stopFileWAL(nn)
 				done := make(chan error, 1)
 				go func() { done <- nn.CS.Start() }()
 				select {
 				case <-done:
 					nn.CS.Stop()
+					nn.CS.VerifWaitDone()
 				case <-time.After(time.Duration(ev.Scale("START_WAIT_S", 60)) * time.Second):
 					// only a goroutine parked in the ticker's channel send is a hang; anything else is a slow machine
 					buf := make([]byte, 4<<20)
